@@ -47,6 +47,10 @@ type scenario struct {
 	Down      [][]int // per session: server->client write sizes
 	LossPct   int
 	Seed      uint64
+	// Greeting > 0: the server speaks first. The client opens every session with an empty write, the server writes
+	// Greeting bytes as soon as it has accepted the session (before any data of the client has arrived), the client reads
+	// them and only then sends its header and data.
+	Greeting int
 }
 
 type result struct {
@@ -112,6 +116,12 @@ func runScenario(sc scenario) *result {
 			swg.Add(1)
 			go func(c net.Conn) {
 				defer swg.Done()
+				if sc.Greeting > 0 {
+					if _, err := c.Write(vh.NewRng(sc.Seed + 991).Bytes(sc.Greeting)); err != nil {
+						fail("server write greeting: %v", err)
+						return
+					}
+				}
 				hdr := make([]byte, 8)
 				if _, err := io.ReadFull(c, hdr); err != nil {
 					fail("server read header: %v", err)
@@ -156,6 +166,21 @@ func runScenario(sc scenario) *result {
 				return
 			}
 			defer c.Close()
+			if sc.Greeting > 0 {
+				if _, err := c.Write(nil); err != nil {
+					fail("client open (empty write): %v", err)
+					return
+				}
+				greet := make([]byte, sc.Greeting)
+				c.SetReadDeadline(time.Now().Add(300 * time.Second))
+				if _, err := io.ReadFull(c, greet); err != nil {
+					fail("client read greeting: %v", err)
+					return
+				}
+				if !bytes.Equal(greet, vh.NewRng(sc.Seed+991).Bytes(sc.Greeting)) {
+					fail("greeting corrupted in session %d", i)
+				}
+			}
 			total := sum(sc.Up[i])
 			hdr := []byte{byte(i), 0, 0, 0, byte(total >> 24), byte(total >> 16), byte(total >> 8), byte(total)}
 			g := vh.NewRng(sc.Seed + uint64(i)*131 + 1)
@@ -206,7 +231,7 @@ func runScenario(sc scenario) *result {
 			time.Sleep(200 * time.Millisecond)
 			mu.Lock()
 			res.upBytes += total + 8 + 1
-			res.downBytes += sum(sc.Down[i]) + 32
+			res.downBytes += sum(sc.Down[i]) + 32 + sc.Greeting
 			mu.Unlock()
 		}(i)
 	}
@@ -308,7 +333,7 @@ func (res *result) sender(src string) senderInfo {
 }
 
 func caseOf(res *result, extra map[string]interface{}) map[string]interface{} {
-	m := map[string]interface{}{"scenario": res.sc.Name, "transport": res.sc.Transport, "client_mtu": res.sc.CMTU, "server_mtu": res.sc.SMTU,
+	m := map[string]interface{}{"scenario": res.sc.Name, "transport": res.sc.Transport, "client_mtu": res.sc.CMTU, "server_mtu": res.sc.SMTU, "server_greeting": res.sc.Greeting,
 		"client_pattern": patName(res.sc.CPat), "server_pattern": patName(res.sc.SPat), "up": res.sc.Up, "down": res.sc.Down, "loss_pct": res.sc.LossPct, "seed": res.sc.Seed}
 	for k, v := range extra {
 		m[k] = v
@@ -612,6 +637,21 @@ func matrix(r *vh.Run) []scenario {
 				}
 			}
 		}
+		// the server speaks first (greeting before any client data), then answers with writes around and above its fragment
+		// sizes: the server's send mode may change between its first and its later writes (low entropy only after the client used it)
+		for mi, mtu := range mtus {
+			for _, mode := range modes {
+				if !th && (mi+int(mode))%2 != 0 {
+					continue
+				}
+				cp := pat(-1, -1, nil, mode, rotations[mi%len(rotations)], false)
+				sp := pat(0, 0, nil, mode, rotations[(mi+1)%len(rotations)], false)
+				sc := scenario{Transport: "udp", CMTU: mtu, SMTU: mtu, CPat: cp, SPat: sp, Up: [][]int{{40, 2000}, {1}}, Down: [][]int{{mtu - 88, 8192, 3}, {2 * (mtu - 88)}},
+					Greeting: []int{1, 300, mtu - 88, 4000}[(mi+int(mode))%4]}
+				add(sc)
+			}
+		}
+		add(scenario{Transport: "tcp", CMTU: 1400, SMTU: 1400, CPat: pat(1, 1, nil, 1, 1, false), SPat: pat(1, 1, nil, 1, 16, true), Up: [][]int{{10}}, Down: [][]int{{40000}}, Greeting: 700})
 		// TCP length fields
 		for _, mode := range modes {
 			add(scenario{Transport: "tcp", CMTU: 1400, SMTU: 1400, CPat: pat(255, 255, nil, mode, 1, false), SPat: pat(255, 255, nil, mode, 16, true),
@@ -695,7 +735,7 @@ func main() {
 		dbg("scenario %s %s c=%s s=%s", sc.Name, sc.Transport, patName(sc.CPat), patName(sc.SPat))
 		res := runScenario(sc)
 		r.Count("scenario-" + sc.Transport)
-		r.Case(fmt.Sprintf("SC %s %s c=%s s=%s mtu=%d/%d", sc.Name, sc.Transport, patName(sc.CPat), patName(sc.SPat), sc.CMTU, sc.SMTU), "OK")
+		r.Case(fmt.Sprintf("SC %s %s c=%s s=%s mtu=%d/%d greet=%d", sc.Name, sc.Transport, patName(sc.CPat), patName(sc.SPat), sc.CMTU, sc.SMTU, sc.Greeting), "OK")
 		checkTransfer(r, res)
 		switch *prop {
 		case "C14":
